@@ -222,33 +222,40 @@ structure Split where
   half : Bool
   deriving Repr, DecidableEq
 
-/-- toom8h_mul.c:93-145 with LIMIT_numerator = 21, LIMIT_denominat = 20, GMP_NUMB_BITS = 64. -/
+/-- toom8h_mul.c:106-127: the cascade choosing (p, q) by the ratio an/bn, with LIMIT_numerator = 21,
+    LIMIT_denominat = 20, GMP_NUMB_BITS = 64 (the `GMP_NUMB_BITS <= …*3 ||` alternatives are false). -/
+def choosePQ (an bn : Nat) : Nat × Nat :=
+  if an * 13 < 16 * bn then (9, 8)                           -- :106-107
+  else if an * (20 / 2) < (21 / 7 * 9) * (bn / 2) then (9, 7)     -- :108-110
+  else if an * 10 < 33 * (bn / 2) then (10, 7)               -- :111-112
+  else if an * (20 / 5) < (21 / 3) * bn then (10, 6)         -- :113-115
+  else if an * 6 < 13 * bn then (11, 6)                      -- :116-117
+  else if an * 4 < 9 * bn then (11, 5)                       -- :118-120
+  else if an * (21 / 3) < 20 * bn then (12, 5)               -- :121-122
+  else if an * 9 < 28 * bn then (12, 4)                      -- :123-125
+  else (13, 4)                                               -- :126-127
+
+/-- toom8h_mul.c:129-139 for the chosen (p, q). -/
+def splitPQ (an bn p q : Nat) : Split :=
+  let half := (p + q) % 2 = 1                                -- :129
+  let n := 1 + (if q * an ≥ p * bn then (an - 1) / p else (bn - 1) / q)   -- :130
+  let p := p - 1; let q := q - 1                             -- :131
+  let s : Int := (an : Int) - p * n                          -- :133
+  let t : Int := (bn : Int) - q * n                          -- :134
+  if half then                                               -- :136  recover from badly chosen splitting
+    if s < 1 then ⟨n, p - 1, q, s + n, t, false⟩              -- :137
+    else if t < 1 then ⟨n, p, q - 1, s, t + n, false⟩         -- :138
+    else ⟨n, p, q, s, t, true⟩
+  else ⟨n, p, q, s, t, false⟩
+
+/-- toom8h_mul.c:93-145. -/
 def split (an bn : Nat) : Split :=
   if an = bn ∨ an * (20 / 2) < 21 * (bn / 2) then              -- :96
     let n := 1 + (an - 1) / 8                                  -- :99
     ⟨n, 7, 7, (an : Int) - 7 * n, (bn : Int) - 7 * n, false⟩    -- :98-102
   else
-    let pq : Nat × Nat :=
-      if an * 13 < 16 * bn then (9, 8)                         -- :106-107
-      else if an * (20 / 2) < (21 / 7 * 9) * (bn / 2) then (9, 7)   -- :108-110  (GMP_NUMB_BITS <= 27 is false)
-      else if an * 10 < 33 * (bn / 2) then (10, 7)             -- :111-112
-      else if an * (20 / 5) < (21 / 3) * bn then (10, 6)       -- :113-115
-      else if an * 6 < 13 * bn then (11, 6)                    -- :116-117
-      else if an * 4 < 9 * bn then (11, 5)                     -- :118-120
-      else if an * (21 / 3) < 20 * bn then (12, 5)             -- :121-122
-      else if an * 9 < 28 * bn then (12, 4)                    -- :123-125
-      else (13, 4)                                             -- :126-127
-    let p := pq.1; let q := pq.2
-    let half := (p + q) % 2 = 1                                -- :129
-    let n := 1 + (if q * an ≥ p * bn then (an - 1) / p else (bn - 1) / q)   -- :130
-    let p := p - 1; let q := q - 1                             -- :131
-    let s : Int := (an : Int) - p * n                          -- :133
-    let t : Int := (bn : Int) - q * n                          -- :134
-    if half then                                               -- :136  recover from badly chosen splitting
-      if s < 1 then ⟨n, p - 1, q, s + n, t, false⟩              -- :137
-      else if t < 1 then ⟨n, p, q - 1, s, t + n, false⟩         -- :138
-      else ⟨n, p, q, s, t, true⟩
-    else ⟨n, p, q, s, t, false⟩
+    let pq := choosePQ an bn
+    splitPQ an bn pq.1 pq.2
 
 /-- one couple of points: the two recursive products (TOOM8H_MUL_N_REC on n+1 limbs) and toom_couple_handling;
     `sign = flag_a ^ flag_b`. -/
